@@ -8,14 +8,19 @@
 (*                                                                         *)
 (* Abstract rows (harness/sim/c17.go concretises them):                    *)
 (*  entry = [kind, label \in {"none","match","mismatch"}, subs : Seq(...)] *)
-(*  obj   = [og, shape, condA, condB, fields, x, gen]                      *)
+(*  obj   = [og, shape, condA, condB, fields, x, gen, lab]                 *)
 (*  gen: metadata.generation readable ("int") or not ("absent", "string"): *)
 (*  an unreadable generation counts as 0, so every declared               *)
 (*  observedGeneration is outdated                                         *)
 (***************************************************************************)
 EXTENDS Naturals, Sequences, FiniteSets
 
-Selected(e) == e.kind # "mismatch" /\ e.label # "mismatch"
+\* label selector: "match" needs the label the labelled object carries, "mismatch" never selects, "notexists" (only a
+\* negative requirement on a key no object has) selects every object - also one without any labels
+Selected(e, o) == /\ e.kind # "mismatch"
+                  /\ CASE e.label = "mismatch" -> FALSE
+                        [] e.label = "match" -> o.lab = "app"
+                        [] OTHER -> TRUE
 
 \* a condition sub-probe needs a well-formed conditions list; a non-map entry met before the wanted one is "malformed"
 SubPass(s, o) ==
@@ -30,7 +35,7 @@ SumSeq(s) == LET F[i \in 0..Len(s)] == IF i = 0 THEN 0 ELSE F[i - 1] + s[i] IN F
 
 \* number of failure messages one entry contributes
 EntryMsgs(e, o) ==
-    IF ~Selected(e) THEN 0
+    IF ~Selected(e, o) THEN 0
     ELSE IF o.og = "stale" \/ (o.og = "equal" /\ o.gen # "int") THEN 1   \* .status outdated: sub-probes are not consulted
     ELSE Cardinality({ i \in DOMAIN e.subs : ~SubPass(e.subs[i], o) })
 
